@@ -50,10 +50,10 @@ package misc
 
 //@ func ToByteLittleEndian
 //@   requires len(out) >= bytes && bytes <= 64
-//@   ensures forall j :: 0 <= j && j < bytes ==> out[bytes-1-j] == spec.byte32(in, j)
+//@   ensures forall d :: 0 <= d && d < bytes ==> out[d] == spec.byte32(in, bytes-1-d)
 //@   assigns out[0:bytes]
 //@   loop 1 invariant -1 <= i && i <= bytes - 1 && in == spec.shr8(old(in), bytes-1-i)
-//@   loop 1 invariant forall j :: 0 <= j && j < bytes-1-i ==> out[bytes-1-j] == spec.byte32(old(in), j)
+//@   loop 1 invariant forall d :: i < d && d < bytes ==> out[d] == spec.byte32(old(in), bytes-1-d)
 //@   loop 1 invariant forall q :: q < 0 || q >= bytes ==> out[q] == old(out[q])
 
 //@ func ToByteBigEndian
@@ -65,10 +65,10 @@ package misc
 //@   loop 1 invariant forall q :: q < 0 || q >= bytes ==> out[q] == old(out[q])
 
 //@ func AddrToByte
-//@   ensures forall i_, j :: 0 <= i_ && i_ < 8 && 0 <= j && j < 4 ==> out[4*i_+3-j] == spec.byte32(addr[i_], j)
+//@   ensures forall d :: 0 <= d && d < 32 ==> out[d] == spec.byte32(addr[d / 4], 3 - d % 4)
 //@   assigns *out
 //@   loop 1 invariant 0 <= i && i <= 8
-//@   loop 1 invariant forall i_, j :: 0 <= i_ && i_ < i && 0 <= j && j < 4 ==> out[4*i_+3-j] == spec.byte32(addr[i_], j)
+//@   loop 1 invariant forall d :: 0 <= d && d < 4*i ==> out[d] == spec.byte32(addr[d / 4], 3 - d % 4)
 //@   loop 2 unreachable
 
 //@ func mnemonicToBin
